@@ -274,6 +274,16 @@ def run_check(mod, tier, seed, replay=None):
     try:
         build = ensure_build()
         proof = proof_status(pid)
+        if tier == "thorough" and proof["ok"]:
+            # the independent checker re-checks the compiled property file and everything it depends on and lists the axioms
+            t0 = time.time()
+            rc_chk, out_chk = sh("coqchk -silent -o -Q theories U2F U2F.Properties.%s" % pid, cwd=COQ, timeout=3000)
+            m = re.search(r"\* Axioms:\s*(.*?)\n\s*\n", out_chk + "\n\n", flags=re.S)
+            axioms = (m.group(1).strip() if m else "?")
+            ctx.notes["coqchk"] = {"rc": rc_chk, "axioms": axioms, "wall_s": round(time.time() - t0, 1)}
+            if rc_chk != 0 or axioms != "<none>":
+                proof["ok"] = False
+                proof["detail"] = "coqchk: rc=%d axioms=%s\n%s" % (rc_chk, axioms, out_chk[-1500:])
         consts_missing = build["consts"].get("missing", [])
         if consts_missing:
             ctx.scale = 3  # fail-soft on location: widen the correspondence budget
